@@ -5,6 +5,7 @@ import Req.Pool.CancelPoolLane
 import Req.Pool.CancelH2
 import Req.Pool.CancelErr
 import Req.Pool.CancelH3
+import Req.Pool.CancelDial
 /-!
 Driver lanes of C08.
 
@@ -35,6 +36,10 @@ Driver lanes of C08.
 * `c08h3life <hasBody> <trace> <kind> <obs>` — the HTTP/3 lifecycle model (`CancelH3`): replay the trace
   (`ev:<Ev>`, `act:<Act>`), cancel, explore EVERY maximal internal run; answer = the observed outcome
   (`ret=…;read=…;closes=…;upl=…;rst=…;stop=…`, `?` = not observed) if the model reaches it, else the first outcome it does reach.
+* `c08dial <meStarter> <stage> <kind> <obs>` — the shared dial of the HTTP/2 connection pool (`CancelDial`): the
+  dial is at `connect|handshake`, `me` (starter of the dial or joiner) has its context ended, EVERY maximal
+  run of internal steps is explored; answer = the observed `me=<class>;other=<pending|conn|err|?>` if the
+  model reaches it, else the first outcome it does reach (`me=hung` = still waiting for `call.done`).
 * `c08errclass <src> <wrappers>` — `CancelErr.rel` seen through the wrappers (`u`rl.Error,
   `n`othingWrittenError, `r`eadFromServer, `b`roken conn; `-` = none): `c=<0|1> d=<0|1> t=<0|1>`.
 -/
@@ -370,7 +375,8 @@ def parseH3Ev (s : String) : Option Req.CancelH3.Ev :=
   if s == "hsDone" then some .hsDone else if s == "streamOpen" then some .streamOpen
   else if s == "credit" then some .credit else if s == "peerHeaders" then some .peerHeaders
   else if s == "peerEnd" then some .peerEnd else if s == "peerReset" then some .peerReset
-  else if s == "callerClose" then some .callerClose else if s == "callerEOF" then some .callerEOF else none
+  else if s == "callerClose" then some .callerClose else if s == "callerEOF" then some .callerEOF
+  else if s == "peerInterim" then some .peerInterim else none
 
 def h3ActName : Req.CancelH3.Act → String
   | .cHsCancel => "cHsCancel" | .cOpenCancel => "cOpenCancel" | .cSendHdr => "cSendHdr"
@@ -444,6 +450,39 @@ def laneH3Life : List String → String
 
 end H3
 
+/-! ### the shared dial of the HTTP/2 pool -/
+
+def dialOutcome (kind : CtxErr) (t : Req.CancelDial.St) : String :=
+  let cls := fun (e : CtxErr) => if e == kind then (if kind == .canceled then "canceled" else "deadline") else "other"
+  let me := match t.me with
+    | .waiting => "hung"
+    | .returned (.ctxErr e) => cls e
+    | .returned .conn => "conn"
+    | .returned .retry => "retry"
+    | .returned .dialErr => "other"
+  let other := match t.other with
+    | .waiting | .returned .retry => "pending"   -- (a joiner sent round the loop dials the silent peer again)
+    | .returned .conn => "conn"
+    | _ => "err"
+  "me=" ++ me ++ ";other=" ++ other
+
+def laneDial : List String → String
+  | [st, stage, kind, obs] =>
+    let k : Option CtxErr := if kind == "canceled" then some .canceled
+      else if kind == "deadline" then some .deadline else none
+    let d : Option Req.CancelDial.Dial := if stage == "connect" then some .connecting
+      else if stage == "handshake" then some .handshaking else none
+    match bit st, d, k with
+    | some starter, some d, some k =>
+      let s0 : Req.CancelDial.St := { dial := d, meStarter := starter }
+      let outs := (Req.CancelDial.finals 6 (Req.CancelDial.evApply s0 (.cancel k))).map (dialOutcome k)
+      if outs.any (h3Matches obs) then obs
+      else match outs with
+        | o :: _ => o
+        | [] => "no-outcome"
+    | _, _, _ => "bad-op"
+  | _ => "bad-op"
+
 def parseSrc (s : String) : Option Req.CancelErr.Src :=
   if s == "ctxCanceled" then some .ctxCanceled else if s == "ctxDeadline" then some .ctxDeadline
   else if s == "respHeaderTimeout" then some .respHeaderTimeout
@@ -472,6 +511,7 @@ def lanes : List (String × (List String → String)) := [
   ("c08h2flow", laneH2Flow),
   ("c08h2life", laneH2Life),
   ("c08h3life", laneH3Life),
+  ("c08dial", laneDial),
   ("c08snap", laneSnap),
   ("c08pool", lanePool),
   ("c08maperr", laneMapErr),
